@@ -164,7 +164,7 @@ impl LazyScopedVariables {
                 .get(&scope.index)
                 .and_then(|n| n.parent());
             while let Some(scope) = parent {
-                if let Some(value) = map.get(&(scope.id() as u32)) {
+                if let Some(value) = map.get(&(scope.id() as SyntaxNodeID)) {
                     result = Some(value.clone());
                     break;
                 }
